@@ -411,7 +411,8 @@ where
         format!("{:?}", v)
     });
     ok &= diff_op!(acc, rng, "fold_axis_skipnan", ty, &shape, &data, &lay, kind, |a| {
-        let r = a.fold_axis_skipnan(Axis(axis), (0usize, 0u128), |s, x| (s.0 + 1, s.1.wrapping_add(T::nnbits(x).1.wrapping_mul(31))));
+        // fold_axis visits each lane in logical order along the axis: an ORDER-SENSITIVE fold must not depend on layout
+        let r = a.fold_axis_skipnan(Axis(axis), (0usize, 0u128), |s, x| (s.0 + 1, s.1.wrapping_mul(31).wrapping_add(T::nnbits(x).1)));
         format!("{:?} {:?}", r.shape().to_vec(), r.iter().cloned().collect::<Vec<_>>())
     });
     ok &= diff_op!(acc, rng, "quantile_axis_skipnan_mut", ty, &shape, &data, &lay, kind, |a| fp_arr(catch(|| a.quantile_axis_skipnan_mut(Axis(axis), q, &Lower))));
@@ -543,6 +544,22 @@ fn hist_case(rng: &mut Rng, acc: &mut Acc) {
             Err(m) => format!("panic({})", m),
         }
     });
+    // Edges built from logically equal 1-D arrays in different representations must be equal
+    {
+        let ne = rng.below(9);
+        let ed: Vec<N64> = (0..ne).map(|_| n64(rng.range(0, 12) as f64)).collect();
+        let l1 = Layout::random(1, rng);
+        let want = format!("{:?}", Edges::from(ed.clone()));
+        acc.eval();
+        let e1 = Embedded::new(&[ne], &ed, l1.clone());
+        let from_view_copy = format!("{:?}", Edges::from(e1.view().into_dimensionality::<Ix1>().unwrap().to_owned()));
+        let owned_sliced = Embedded::new(&[ne], &ed, l1.clone()).into_owned_sliced().into_dimensionality::<Ix1>().unwrap();
+        let from_sliced = format!("{:?}", Edges::from(owned_sliced));
+        acc.count("op_Edges::from(Array1)");
+        if from_view_copy != want || from_sliced != want {
+            report(acc, "Edges::from(Array1)", "N64", &[ne], &l1, 1, &want, &format!("copy of view: {} / owned sliced: {}", from_view_copy, from_sliced));
+        }
+    }
     acc.nontrivial(h64(&("hist", n, d, &lay, kind, data.iter().map(|x| x.bits()).collect::<Vec<_>>())));
 }
 
